@@ -292,11 +292,11 @@ impl TableBootstrapInner {
 
             if responses_received == 0 {
                 self.set_state(State::IdleBeforeRebootstrap, line!(), Tracked(ps));
-                time::sleep(self.calculate_retry_duration(bootstrap_attempt));
                 proof {
                     // ASSUMPTION A-attempts: fewer than 2^64 failed attempts (each lasts at least 2 s)
                     assume(bootstrap_attempt < u64::MAX);
                 }
+                time::sleep(self.calculate_retry_duration(bootstrap_attempt));
                 bootstrap_attempt += 1;
                 continue;
             }
@@ -376,11 +376,11 @@ impl TableBootstrapInner {
                 // bootstrap process periodically.
                 if !router_addresses.is_empty() {
                     self.set_state(State::IdleBeforeRebootstrap, line!(), Tracked(ps));
-                    time::sleep(self.calculate_retry_duration(bootstrap_attempt));
                     proof {
                         // ASSUMPTION A-attempts
                         assume(bootstrap_attempt < u64::MAX);
                     }
+                    time::sleep(self.calculate_retry_duration(bootstrap_attempt));
                     bootstrap_attempt += 1;
                     continue;
                 }
@@ -411,7 +411,7 @@ impl TableBootstrapInner {
         message: Message,
         router_addresses: &HashSet<SocketAddr>,
         new_receivers_tx: mpsc::UnboundedSender<Responded>,
-        Tracked(tr): Tracked<&mut Trace>, Tracked(h): Tracked<&Hist>
+        Tracked(tr): Tracked<&mut Trace>, Tracked(h): Tracked<&Hist>,
     )
         requires h.s.len() <= M() ==> !sent_id(old(tr).ev, message.transaction_id@), // @C19.first_round_id_is_fresh
         ensures extends(old(tr).ev, final(tr).ev),
@@ -603,9 +603,19 @@ impl TableBootstrapInner {
     }
 //@end
 
-    // ASSUMED (timing only): bootstrap.rs:450-454, 2^min(attempt+1, 9) seconds
-    #[verifier::external_body]
-    pub fn calculate_retry_duration(&self, bootstrap_attempt: u64) -> Duration { unimplemented!() }
+//@begin fn src/action/bootstrap.rs impl:TableBootstrapInner calculate_retry_duration props=C15
+    pub fn calculate_retry_duration(&self, bootstrap_attempt: u64) -> (r: Duration)
+        requires bootstrap_attempt < u64::MAX,
+        ensures 2_000_000_000 <= dur_nanos(r) <= 512_000_000_000, // @C15.retry_back_off_between_2_s_and_512_s
+    {
+        const BASE: u64 = 2;
+        proof {
+            lemma_pow2_small(if bootstrap_attempt + 1 <= 9 { (bootstrap_attempt + 1) as nat } else { 9nat });
+        }
+        // Max is somewhere around 8.5 mins.
+        Duration::from_secs(BASE.pow(vx_min_u64(bootstrap_attempt + 1, 9) as u32))
+    }
+//@end
     // ASSUMED: bootstrap.rs:456-504 (iterator chains over buckets, outside Verus' subset) yields some node handles; each one
     // gets its own fresh transaction id, so nothing about them is needed
     #[verifier::external_body]
